@@ -373,6 +373,11 @@ func runFltNil(c *core.Ctx) {
 			c.CountSites(1)
 			construct := "presence(" + f + ")"
 			switch {
+			case f == "Tags" && ranged[f] && nilTests[f] == 0:
+				// the condition *map* is walked entry by entry: an empty map has no entry and so, like an
+				// absent one, no condition (a length test of the map asks the same as a nil test) — it is
+				// the per-entry value lists whose emptiness matters
+				c.OK(s.props, fname(c, s.fn), construct, P.Pos(s.fn.Pos()), "the #x conditions are ranged over: an empty map contributes none, like an absent one")
 			case len(lenTests[f]) > 0:
 				c.Bad(s.props, fname(c, s.fn), construct, lenTests[f][0], "presence of "+f+" is tested by its length: {\""+strings.ToLower(f)+"\":[]} (present but empty, must match nothing) is treated like an absent condition")
 			case nilTests[f] > 0:
@@ -791,7 +796,7 @@ func runOrNosc(c *core.Ctx) {
 }
 
 func init() {
-	reg(&core.RuleInfo{Name: "MATCH-PAIR", Props: []string{"C02"}, Engine: "PROV", Floor: 5, Confirmed: 6,
+	reg(&core.RuleInfo{Name: "MATCH-PAIR", Props: []string{"C02", "C07", "C08"}, Engine: "PROV", Floor: 5, Confirmed: 6,
 		Doc: "each condition is tested against its own event attribute and a miss forces 'no match'", Run: runMatchPair})
 }
 
@@ -990,7 +995,7 @@ func runMatchPair(c *core.Ctx) {
 }
 
 func init() {
-	reg(&core.RuleInfo{Name: "COMB-TAB", Props: []string{"C02"}, Engine: "CFG", Floor: 3, Confirmed: 4,
+	reg(&core.RuleInfo{Name: "COMB-TAB", Props: []string{"C02", "C07", "C08"}, Engine: "CFG", Floor: 3, Confirmed: 4,
 		Doc: "a filter list matches when ANY member matches and is Done when ALL members are", Run: runCombTab})
 }
 
@@ -1215,6 +1220,158 @@ func foldSemantics(fn *ssa.Function, member string) (sem foldSem, ok bool) {
 	return sem, true
 }
 
+// quantForm: fn returns a standard-library quantifier over its receiver whose predicate is one
+// method of the element called with fn's own arguments. Returns "any" / "all" and the method name.
+func quantForm(fn *ssa.Function) (quant, member string, ok bool) {
+	rbs := an.ReturnBlocks(fn)
+	if len(rbs) != 1 || len(fn.Params) == 0 {
+		return "", "", false
+	}
+	rv := an.ReturnValues(an.LastInstr(rbs[0]).(*ssa.Return))
+	if len(rv) != 1 {
+		return "", "", false
+	}
+	return quantOver(rv[0], ssa.Value(fn.Params[0]))
+}
+
+// quantOver: v is a standard-library quantifier over list whose predicate is one method (or one
+// field) of the element: "any" / "all" and the member's name.
+func quantOver(v0 ssa.Value, list0 ssa.Value) (quant, member string, ok bool) {
+	// atom: a closure `func(m T) bool { return [!] m.Member(args…) }` or `func(v T) bool { return [!] f(v) }`
+	// with f bound (through the helper's parameter) to such a closure
+	var predOf func(v ssa.Value, bind map[*ssa.Parameter]ssa.Value, depth int) (string, bool, bool)
+	predOf = func(v ssa.Value, bind map[*ssa.Parameter]ssa.Value, depth int) (string, bool, bool) {
+		if depth > 4 {
+			return "", false, false
+		}
+		if pm, isP := v.(*ssa.Parameter); isP {
+			if b, has := bind[pm]; has {
+				return predOf(b, nil, depth+1)
+			}
+			return "", false, false
+		}
+		var cl *ssa.Function
+		var mc *ssa.MakeClosure
+		switch x := v.(type) {
+		case *ssa.MakeClosure:
+			cl, _ = x.Fn.(*ssa.Function)
+			mc = x
+		case *ssa.Function:
+			cl = x
+		}
+		if cl == nil || len(cl.Params) != 1 {
+			return "", false, false
+		}
+		crb := an.ReturnBlocks(cl)
+		if len(crb) != 1 || len(cl.Blocks) != 1 {
+			return "", false, false
+		}
+		r := an.ReturnValues(an.LastInstr(crb[0]).(*ssa.Return))[0]
+		neg := false
+		if u, isU := r.(*ssa.UnOp); isU && u.Op == token.NOT {
+			neg, r = true, u.X
+		}
+		// a field of the element (`func(m *ServerOKMsg) bool { return m.Accepted }`)
+		if ld, isLd := r.(*ssa.UnOp); isLd && ld.Op == token.MUL {
+			if fa, isFA := ld.X.(*ssa.FieldAddr); isFA && fa.X == ssa.Value(cl.Params[0]) {
+				return an.FieldName(fa.X.Type(), fa.Field), neg, true
+			}
+		}
+		call, isCall := r.(*ssa.Call)
+		if !isCall {
+			return "", false, false
+		}
+		// m.Member(…) on the closure's own parameter
+		if call != nil && call.Call.IsInvoke() && call.Call.Value == ssa.Value(cl.Params[0]) {
+			return call.Call.Method.Name(), neg, true
+		}
+		if sc := an.StaticCallee(&call.Call); sc != nil && len(call.Call.Args) > 0 && call.Call.Args[0] == ssa.Value(cl.Params[0]) && sc.Signature.Recv() != nil {
+			return sc.Name(), neg, true
+		}
+		// f(v) with f a captured function value (by value, or — the usual lowering — through the
+		// cell the enclosing function spilled its parameter into)
+		callee := call.Call.Value
+		if ld, isLd := callee.(*ssa.UnOp); isLd && ld.Op == token.MUL {
+			callee = ld.X
+		}
+		if fv, isFV := callee.(*ssa.FreeVar); isFV && mc != nil && len(call.Call.Args) == 1 && call.Call.Args[0] == ssa.Value(cl.Params[0]) {
+			for i, f := range cl.FreeVars {
+				if f == fv && i < len(mc.Bindings) {
+					b := mc.Bindings[i]
+					if a, isA := b.(*ssa.Alloc); isA {
+						if st := an.StoresTo(a); len(st) == 1 {
+							b = st[0].Val
+						}
+					}
+					m, n2, ok2 := predOf(b, bind, depth+1)
+					return m, neg != n2, ok2
+				}
+			}
+		}
+		return "", false, false
+	}
+	var eval func(v ssa.Value, list ssa.Value, bind map[*ssa.Parameter]ssa.Value, depth int) (string, string, bool)
+	eval = func(v ssa.Value, list ssa.Value, bind map[*ssa.Parameter]ssa.Value, depth int) (string, string, bool) {
+		if depth > 4 {
+			return "", "", false
+		}
+		if u, isU := v.(*ssa.UnOp); isU && u.Op == token.NOT {
+			q, m, ok := eval(u.X, list, bind, depth+1)
+			if !ok {
+				return "", "", false
+			}
+			// !any(p) = all(!p): the atom's polarity is carried in a leading '!'
+			nq := map[string]string{"any": "all", "all": "any"}[q]
+			if strings.HasPrefix(m, "!") {
+				return nq, m[1:], true
+			}
+			return nq, "!" + m, true
+		}
+		call, isCall := v.(*ssa.Call)
+		if !isCall || len(call.Call.Args) != 2 {
+			return "", "", false
+		}
+		arg0 := call.Call.Args[0]
+		if ct, isCT := arg0.(*ssa.ChangeType); isCT {
+			arg0 = ct.X
+		}
+		if pm, isP := arg0.(*ssa.Parameter); isP {
+			if b, has := bind[pm]; has {
+				arg0 = b
+			}
+		}
+		if arg0 != list {
+			return "", "", false
+		}
+		if strings.HasPrefix(an.CalleeName(&call.Call), "slices.ContainsFunc") {
+			m, neg, ok := predOf(call.Call.Args[1], bind, 0)
+			if !ok {
+				return "", "", false
+			}
+			if neg {
+				m = "!" + m
+			}
+			return "any", m, true
+		}
+		// a one-line module helper over (list, predicate)
+		h := bodyOf(an.StaticCallee(&call.Call))
+		if h == nil || len(h.Blocks) != 1 || len(h.Params) != 2 {
+			return "", "", false
+		}
+		hrv := an.ReturnValues(an.LastInstr(h.Blocks[0]).(*ssa.Return))
+		if len(hrv) != 1 {
+			return "", "", false
+		}
+		nb := map[*ssa.Parameter]ssa.Value{h.Params[0]: list, h.Params[1]: call.Call.Args[1]}
+		return eval(hrv[0], list, nb, depth+1)
+	}
+	q, m, okq := eval(v0, list0, nil, 0)
+	if !okq || strings.HasPrefix(m, "!") {
+		return "", "", false
+	}
+	return q, m, true
+}
+
 func runCombTab(c *core.Ctx) {
 	P := c.P
 	want := map[string]struct {
@@ -1238,6 +1395,18 @@ func runCombTab(c *core.Ctx) {
 			continue
 		}
 		c.CountFuncs(1)
+		// the combinator written with the standard library: `slices.ContainsFunc(mm, func(m T) bool {
+		// return m.Match(event) })` is "any member", `!slices.ContainsFunc(mm, func(m T) bool { return
+		// !m.Done() })` (directly or through a one-line generic helper) is "all members". Both stop at
+		// the first decisive member, which LimitMatch (it counts per member) must not do.
+		if q, member, okq := quantForm(fn); okq {
+			w := want[name]
+			wantQ := map[bool]string{false: "any", true: "all"}[w.init]
+			c.Check(q == wantQ && member == name && name != "LimitMatch", nil, fname(c, fn), "truth-table", P.Pos(fn.Pos()),
+				fmt.Sprintf("%s member answers %s (standard-library quantifier over the receiver): %s", q, member, w.txt),
+				fmt.Sprintf("the combinator is '%s member answers %s' (short-circuiting); want '%s' of %s%s", q, member, w.txt, name, map[bool]string{true: ", consulting every member (each counts its own matches)", false: ""}[name == "LimitMatch"]))
+			continue
+		}
 		sem, ok := foldSemantics(fn, name)
 		if !ok {
 			c.Unknown(nil, fname(c, fn), "truth-table", P.Pos(fn.Pos()), "loop over the members not recognised")
